@@ -155,6 +155,27 @@ def gen_program(rng, files=True):
     return lines
 
 
+def _text_write(rng, num):
+    """PRINT#/WRITE# whose items end at blanks, commas, quotes, CR LF or a bare CR"""
+    return rng.choice([
+        'PRINT#%d,12;34;56' % num, 'PRINT#%d,N%%;-7;1.5' % num, 'PRINT#%d,"ab cd",9' % num,
+        'WRITE#%d,"q w",8,"z"' % num, 'PRINT#%d,"x";CHR$(13);"y"' % num, 'PRINT#%d,CHR$(34);"q";CHR$(34);"t";3' % num,
+        'PRINT#%d,1;:PRINT#%d,2' % (num, num), 'PRINT#%d,"one two  three"' % num, 'PRINT#%d,5,6' % num,
+    ])
+
+
+def _text_read(rng, num, guard):
+    v = rng.choice(['X1', 'X2', 'X3'])
+    st = rng.choice(['INPUT#%d,%s:PRINT "i:";%s' % (num, v, v), 'INPUT#%d,%s:PRINT "i:";%s' % (num, v, v),
+                     'INPUT#%d,L$:PRINT "s:";L$' % num, 'LINE INPUT#%d,L$:PRINT "l:";L$' % num,
+                     'L$=INPUT$(%d,#%d):PRINT "c:";L$' % (rng.randrange(1, 4), num),
+                     'INPUT#%d,X1,L$:PRINT X1;L$' % num])
+    if guard:
+        # the whole clause stays on one line, as the last statement group of that line
+        return 'IF NOT EOF(%d) THEN %s' % (num, st)
+    return st
+
+
 def gen_file_program(rng):
     """Programs that are file histories: every kind of open file (OUTPUT, APPEND, INPUT, RANDOM) in every state a
     suspension can find it in - just opened and still empty (new file, existing zero-length file, existing file with
@@ -178,7 +199,8 @@ def gen_file_program(rng):
             add('OPEN "%s" FOR OUTPUT AS #1:CLOSE #1' % nm)
             exists[nm] = 'empty'
         elif r < 0.55:
-            add('OPEN "%s" FOR OUTPUT AS #1:PRINT#1,"old %s":CLOSE #1' % (nm, nm))
+            add('OPEN "%s" FOR OUTPUT AS #1:PRINT#1,"old %s":%s:%s:CLOSE #1' % (
+                nm, nm, _text_write(rng, 1), _text_write(rng, 1)))
             exists[nm] = 'data'
     for _ in range(rng.randrange(4, 10)):
         free = [k for k in (1, 2, 3) if k not in opened]
@@ -204,14 +226,24 @@ def gen_file_program(rng):
             nm, mode = opened[num]
             if mode in ('APPEND', 'OUTPUT'):
                 add(rng.choice(['PRINT#%d,"w%d";N%%' % (num, rng.randrange(100)), 'WRITE#%d,N%%,"q"' % num,
-                                'PRINT#%d,"a";:PRINT#%d,"b"' % (num, num)]))
+                                'PRINT#%d,"a";:PRINT#%d,"b"' % (num, num), _text_write(rng, num)]))
                 exists[nm] = 'data'
             elif mode == 'INPUT':
-                add('IF NOT EOF(%d) THEN LINE INPUT#%d,L$:PRINT "r:";L$' % (num, num))
-            else:
+                # item-wise reads, one per statement: the boundary falls where the text file holds read-ahead
+                for _ in range(rng.randrange(1, 4)):
+                    add(_text_read(rng, num, True))
+            elif rng.random() < 0.5:
                 rec = rng.randrange(1, 4)
                 add(rng.choice(['LSET R$="rec%d":PUT #%d,%d' % (rec, num, rec), 'GET #%d,%d:PRINT "g:";R$' % (num, rec),
                                 'LSET R$="nxt":PUT #%d' % num]))
+                exists[nm] = 'data'
+            else:
+                # text I/O on the record buffer of the random file
+                rec = rng.randrange(1, 3)
+                add('%s:PUT #%d,%d' % (_text_write(rng, num), num, rec))
+                add('GET #%d,%d' % (num, rec))
+                for _ in range(rng.randrange(1, 4)):
+                    add(_text_read(rng, num, False))
                 exists[nm] = 'data'
         elif r < 0.88 and opened:
             num = rng.choice(sorted(opened))
@@ -415,7 +447,7 @@ class C40(core.Check):
     ID = 'C40'
     GEN = ['gen_state']
     PROPS = 'props/C40.v'
-    MODEL_IMPORTS = ['gen.Gen_state', 'model.Crc32', 'model.StateFile', 'model.Resume', 'model.ReopenFile']
+    MODEL_IMPORTS = ['gen.Gen_state', 'model.Crc32', 'model.StateFile', 'model.Resume', 'model.ReopenFile', 'model.TextStream']
     QUICK_CASES = 700
     THOROUGH_CASES = 6000
     PARTIAL = ('resume clause: proved only in the code-pointer model (Interpreter.__setstate__ repositioning over '
@@ -440,7 +472,9 @@ class C40(core.Check):
             'zero-length and filled files, suspended in every state incl. just opened and still empty, read back '
             'through BASIC); reopen: state.pickle_file/unpickle_file on real files (contents of any length incl. '
             'empty, any position incl. -1/0/beyond the end, bytes appended at shutdown) vs model/ReopenFile.v, oracle: '
-            'writes/reads after re-opening continue where they stopped; mid/redo: suspension inside SYSTEM / INPUT. '
+            'writes/reads after re-opening continue where they stopped; field: text I/O on the record buffer of a RANDOM '
+            'file, Session pickled with read-ahead held, FieldFile state vs model/TextStream.v and continuation vs an '
+            'unpickled twin session; mid/redo: suspension inside SYSTEM / INPUT. '
             'non-trivial = at least '
             'one alteration or suspension point exercised')
     histogram = None
@@ -477,6 +511,18 @@ class C40(core.Check):
                                   [30, 'OPEN "O" FOR OUTPUT AS 2'], [40, 'OPEN "R" AS 3 LEN=4:FIELD 3,4 AS R$'],
                                   [50, 'PRINT#1,"a":PRINT#2,"o":LSET R$="rrrr":PUT 3,2'], [60, 'CLOSE'],
                                   [70, 'OPEN "E" FOR INPUT AS 1:LINE INPUT#1,A$:PRINT A$;EOF(1):CLOSE']]},
+            # seeded change C40e: read-ahead of the record-buffer text file held over the suspension
+            {'k': 'resume', 'p': [[10, 'OPEN "R",1,"T.DAT",32'], [20, 'PRINT #1,12;34;56'], [30, 'PUT #1,1'],
+                                  [40, 'GET #1,1'], [50, 'INPUT #1,A'], [60, 'INPUT #1,B'], [70, 'INPUT #1,C'],
+                                  [80, 'PRINT A;B;C'], [90, 'CLOSE']]},
+            {'k': 'resume', 'p': [[10, 'OPEN "S" FOR OUTPUT AS 1:PRINT#1,12;34;56:PRINT#1,"x";CHR$(13);"y":CLOSE'],
+                                  [20, 'OPEN "S" FOR INPUT AS 1'], [30, 'INPUT#1,A'], [40, 'INPUT#1,B:INPUT#1,W'],
+                                  [50, 'A$=INPUT$(1,#1)'], [60, 'LINE INPUT#1,B$:PRINT A;B;W;A$;B$;EOF(1)'],
+                                  [70, 'CLOSE']]},
+            {'k': 'field', 'len': 32, 'w': 'PRINT #1,12;34;56', 'reads': ['INPUT #1,A', 'INPUT #1,B', 'INPUT #1,W'],
+             'n': 1},
+            {'k': 'field', 'len': 32, 'w': 'PRINT #1,"x";CHR$(13);"y"', 'reads': ['INPUT #1,A$', 'INPUT #1,B$'], 'n': 1},
+            {'k': 'field', 'len': 16, 'w': 'WRITE #1,"q w",8', 'reads': ['INPUT #1,A$', 'INPUT #1,A'], 'n': 0},
             {'k': 'reopen', 'mode': 'ab', 'c': [], 'pos': 0, 'junk': [26], 'd': [100, 13, 10]},
             {'k': 'reopen', 'mode': 'wb', 'c': [], 'pos': 0, 'junk': [26], 'd': [100]},
             {'k': 'reopen', 'mode': 'ab', 'c': [97, 13, 10], 'pos': 0, 'junk': [26], 'd': [98]},
@@ -495,16 +541,17 @@ class C40(core.Check):
 
     def gen_cases(self, n):
         rng = self.rng
-        hist = {'crc': 0, 'file': 0, 'real': 0, 'resume': 0, 'files': 0, 'mid': 0, 'reopen': 0}
+        hist = {'crc': 0, 'file': 0, 'real': 0, 'resume': 0, 'files': 0, 'mid': 0, 'reopen': 0, 'field': 0}
         out = []
         thorough = self.tier == 'thorough'
         n_resume = n // 15 if thorough else max(18, n // 38)
         n_files = n // 40 if thorough else max(8, n // 85)
         n_reopen = max(60, n // 12)
+        n_field = max(30, n // 25)
         n_file = max(30, n // 12)
         n_real = 6 if thorough else 2
         n_mid = max(10, n // 60)
-        n_crc = max(0, n - n_resume - n_files - n_reopen - n_file - n_real - n_mid)
+        n_crc = max(0, n - n_resume - n_files - n_reopen - n_field - n_file - n_real - n_mid)
         for _ in range(n_crc):
             b = common.rand_bytes(rng, common.rand_len(rng, 300))
             i = rng.randrange(len(b)) if b else 0
@@ -543,6 +590,21 @@ class C40(core.Check):
                             'junk': rng.choice([[26], [26], [], common.rand_bytes(rng, 3)]) if writable else [],
                             'd': common.rand_bytes(rng, rng.randrange(0, 6)) if mode != 'rb' else []})
             hist['reopen'] += 1
+        for _ in range(n_field):
+            reads = []
+            for _ in range(rng.randrange(1, 5)):
+                reads.append(rng.choice(['INPUT #1,A', 'INPUT #1,B', 'INPUT #1,A$', 'LINE INPUT #1,B$',
+                                         'A$=INPUT$(%d,#1)' % rng.randrange(1, 4), 'INPUT #1,A,B$']))
+            w = _text_write(rng, 1).replace('N%', '4')
+            nread = rng.randrange(0, len(reads) + 1)
+            if rng.random() < 0.6:
+                # items that end at a blank or a bare CR leave a character in the read-ahead
+                w = rng.choice(['PRINT#1,12;34;56', 'PRINT#1,-1;2.5;3', 'PRINT#1,"x";CHR$(13);"y";CHR$(13);"z"',
+                                'PRINT#1,CHR$(34);"q";CHR$(34);"t";3', 'PRINT#1,"ab cd ef"'])
+                reads[0] = 'INPUT #1,A$' if 'x' in w or 'q' in w or 'ab' in w else 'INPUT #1,A'
+                nread = rng.randrange(1, len(reads) + 1)
+            out.append({'k': 'field', 'len': rng.choice([16, 32, 128]), 'w': w, 'reads': reads, 'n': nread})
+            hist['field'] += 1
         for _ in range(n_mid):
             p = [list(x) for x in gen_program(rng, files=False)]
             # put SYSTEM statements into some lines
@@ -746,6 +808,53 @@ class C40(core.Check):
         finally:
             common.rmtree(d)
 
+    # ---- 'field' cases: text-input state of a random file's record buffer across pickling
+    def _field_data(self, case):
+        d = common.tmpdir('c40t')
+        try:
+            def make(sub):
+                os.makedirs(os.path.join(d, sub))
+                x = common.new_session(devices={'C': os.path.join(d, sub)}, current_device='C:')
+                x.execute('OPEN "R",1,"T.DAT",%d' % case['len'])
+                x.execute(case['w'])
+                x.execute('PUT #1,1')
+                x.execute('GET #1,1')
+                for st in case['reads'][:case['n']]:
+                    x.execute(st)
+                return x
+            # s is pickled; the reference continuation runs in an identically prepared session that is never pickled
+            # (FieldFile.__getstate__ deletes _fhandle from the live object, so s itself cannot go on)
+            s, sref = make('A'), make('B')
+
+            def text_state(sess):
+                try:
+                    ff = sess._impl.files.get(1)._field_file
+                except Exception:
+                    return None
+                return (ff._fhandle.tell(), [ord(c) for c in ff._readahead], list(bytes(ff.get_buffer())))
+            before = text_state(s)
+            s2 = pickle.loads(pickle.dumps(s))
+            after = text_state(s2)
+            if before is None or after is None:
+                s2.close()
+                sref.close()
+                return {'out': [0], 'before': None, 'fail': None}
+            pend = lambda t: t[1] + t[2][t[0]:]
+            fail = None
+            if pend(after) != pend(before):
+                fail = ('characters pending on the record buffer after unpickling %r differ from those before %r '
+                        '(stream position %d -> %d, read-ahead %r -> %r)' % (
+                            bytes(pend(after)), bytes(pend(before)), before[0], after[0], before[1], after[1]))
+            tail = ':'.join(case['reads'][case['n']:] + ['PRINT A;B;W;"|";A$;"|";B$'])
+            o1, o2 = sref.execute(tail), s2.execute(tail)
+            if fail is None and o1 != o2:
+                fail = 'continuing %r after unpickling gives %r, without pickling %r' % (tail, o2, o1)
+            sref.close()
+            s2.close()
+            return {'out': [1, after[0], len(after[1])] + pend(after), 'before': before, 'fail': fail}
+        finally:
+            common.rmtree(d)
+
     # ---- 'resume' / 'mid' / 'redo' cases
     def _resume_data(self, case):
         prog = [tuple(x) for x in case['p']]
@@ -764,8 +873,14 @@ class C40(core.Check):
                 ks = ks[::step]
             points, fail = [], None
             for k in ks:
-                with core.time_limit(60):
-                    res = r.interrupted(k)
+                try:
+                    with core.time_limit(60):
+                        res = r.interrupted(k)
+                except Exception as e:
+                    if fail is None:
+                        fail = 'suspending at statement boundary %d and resuming raised %s: %s' % (
+                            k, type(e).__name__, e)
+                    continue
                 if res is None:
                     continue
                 pt = res['point']
@@ -870,6 +985,8 @@ class C40(core.Check):
             return data['codes'] + [len(data['accepted'])]
         if k == 'reopen':
             return self._cache('reopen', case, self._reopen_data)['out']
+        if k == 'field':
+            return self._cache('field', case, self._field_data)['out']
         data = self._cache('resume', case, self._resume_data)
         pts = self._pts_runmode(data)
         return [len(pts)] + [p['ptr_after'] for p in pts]
@@ -890,6 +1007,11 @@ class C40(core.Check):
             mods = '[' + ';'.join('(%d,%d)' % (i, v) for i, v in data['mods']) + ']'
             # the trailing 0 is the prediction of C40_any_byte_rejected for the sweep: no alteration accepted
             return '(load_codes %d %s %s [] ++ [0])' % (data['dcode'], core.zl(data['base']), mods)
+        if k == 'field':
+            b = self._cache('field', case, self._field_data)['before']
+            if b is None:
+                return '[0]'
+            return '(1 :: field_out %s %d %s)' % (core.zl(b[2]), b[0], core.zl(b[1]))
         if k == 'reopen':
             w, a = (1 if 'w' in case['mode'] else 0), (1 if 'a' in case['mode'] else 0)
             if case.get('direct'):
@@ -921,6 +1043,8 @@ class C40(core.Check):
             return len(out) > 3
         if k == 'reopen':
             return True
+        if k == 'field':
+            return out[0] == 1 and out[2] > 0      # read-ahead held over the pickling
         return out[0] > 0
 
     def shrink_candidates(self, case):
@@ -959,6 +1083,8 @@ class C40(core.Check):
             return None
         if k == 'reopen':
             return self._cache('reopen', case, self._reopen_data)['fail']
+        if k == 'field':
+            return self._cache('field', case, self._field_data)['fail']
         data = self._cache('resume', case, self._resume_data)
         return data['fail']
 
